@@ -390,9 +390,9 @@ class Lst:
         items = list(items)
 
         def get(i):
-            if is_concrete(i):
+            if is_concrete(i) and 0 <= i < len(items):
                 return items[i]
-            if not items:
+            if not items or is_concrete(i):
                 # only reachable in specification expressions under a vacuous range guard
                 if isinstance(elem, tuple) and elem[0] == "tuple":
                     return tuple(z3.Const(fresh_name("nil"), sort_of(k)) for k in elem[1])
